@@ -77,3 +77,52 @@ Require Import V.Kafka.KafkaSpecEnc.
 Lemma impl_arrays_ok :
   forallb arrays_ok (table_types impl_req_tbl) = true /\ forallb arrays_ok (table_types impl_resp_tbl) = true.
 Proof. split; vm_compute; reflexivity. Qed.
+
+(* wherever the generated tables are wire-compatible, they differ only in names and
+   single-field wrappers, so compat_sound applies: the dissector reports the encoded values *)
+Require Import V.Kafka.KafkaCompatProofs.
+Lemma compat_grid_simb :
+  forallb (fun e : Z * Z * bool * ty =>
+             let '(api, ver, resp, spec) := e in
+             match impl_layout api ver resp with
+             | Some impl => implb (compat spec impl) (simb spec impl)
+             | None => true
+             end) spec_grid = true.
+Proof. vm_compute. reflexivity. Qed.
+
+Lemma compat_grid_sim : forall api ver resp spec impl,
+  In (api, ver, resp, spec) spec_grid -> impl_layout api ver resp = Some impl ->
+  compat spec impl = true -> sim spec impl.
+Proof.
+  intros api ver resp spec impl Hin Hl Hc.
+  pose proof compat_grid_simb as H. rewrite forallb_forall in H. specialize (H _ Hin). cbn beta iota in H.
+  rewrite Hl, Hc in H. cbn [implb] in H. apply simb_sim. exact H.
+Qed.
+
+Require Import V.Kafka.KafkaC01 V.Kafka.KafkaRoundtrip V.Kafka.KafkaFrame.
+Lemma impl_layout_ok api ver resp impl : impl_layout api ver resp = Some impl ->
+  plain impl = true /\ arrays_ok impl = true.
+Proof.
+  unfold impl_layout. intro H.
+  destruct impl_tables_plain as [P1 P2]. destruct impl_arrays_ok as [A1 A2].
+  assert (Hin : In impl (KafkaC01.table_types (if resp then impl_resp_tbl else impl_req_tbl))).
+  { eapply layout_in. exact H. }
+  destruct resp.
+  - split; [rewrite forallb_forall in P2; apply P2; exact Hin|rewrite forallb_forall in A2; apply A2; exact Hin].
+  - split; [rewrite forallb_forall in P1; apply P1; exact Hin|rewrite forallb_forall in A1; apply A1; exact Hin].
+Qed.
+
+(* the headline for the compatible part of the grid: the selected layout decodes the wire
+   format's encoding of every well-formed value to that value (up to names and single-field
+   wrappers, null read as empty) and consumes exactly its bytes *)
+Lemma grid_exact : forall api ver resp spec impl,
+  In (api, ver, resp, spec) spec_grid -> impl_layout api ver resp = Some impl -> compat spec impl = true ->
+  forall v, wf spec v ->
+  exists v', wf impl v' /\ uv impl v' = uv spec v /\ encode impl v' = encode spec v /\
+    forall d r, derr d = None -> inp d = encode spec v ++ r -> blen (encode spec v) <= remain d ->
+    exists d', decode impl d = Ok (norm impl v', d') /\ consumed d d' (encode spec v) r.
+Proof.
+  intros api ver resp spec impl Hin Hl Hc v Hw.
+  destruct (impl_layout_ok api ver resp impl Hl) as [Hp Ha].
+  apply compat_sound; try assumption. eapply compat_grid_sim; eassumption.
+Qed.
